@@ -61,9 +61,15 @@ PROPS = {
     },
     'C01': {
         'families': [FOREST, FORESTEXH],
-        'kinds': ['roots', 'modifyfail', 'undofail', 'block'],
-        'lean_modules': [],
-        'theorems': [],
+        'kinds': ['roots', 'modifyfail', 'undofail', 'block', 'pdump'],
+        'lean_modules': ['UtreexoVerif.Props.C01'],
+        'theorems': ['UtreexoVerif.Props.C01.' + t for t in ['run_slots', 'batching_independent', 'roots_run', 'numLeaves_run',
+                     'roots_length_popcount', 'roots_length_onesCount64', 'mem_treeRows_iff', 'subtree_without_survivors',
+                     'sibling_without_survivors_right', 'sibling_without_survivors_left', 'both_halves_survive', 'collapse_leaves',
+                     'root_zero_iff_no_survivors', 'roots_def', 'stump_add_refines', 'stump_add_refines_CR', 'roots_add_one',
+                     'stump_update_no_dels_refines']],
+        'unproved': ['UtreexoVerif.Props.C01.stump_update_refines_statement (Stump.update with deletions refines Forest.modify: needs calculateHashes completeness)',
+                     'refinement theorems for Pollard (pointer surgery) and MapPollard: correspondence only'],
         'rule': 'per block: roots and leaf count of Stump, Pollard, MapPollard(full/partial x TotalRows configs) compared with the slot specification; non-trivial = at least one leaf; distinct = distinct observation lines',
         'trusted': COMMON_TRUST,
         'assumptions': ['Pollard pointer surgery is not transliterated: its model is the specification forest'],
@@ -79,7 +85,7 @@ PROPS = {
     },
     'C10': {
         'families': [FOREST, FORESTEXH],
-        'kinds': ['pos', 'hash', 'count', 'cachedcount'],
+        'kinds': ['pos', 'hash', 'count', 'cachedcount', 'pdump'],
         'lean_modules': [],
         'theorems': [],
         'rule': 'GetLeafPosition for every leaf ever added, internal hashes, fresh and zero hashes; GetHash for every position in [0, 2^(rows+1)+3]; tracked counts; non-trivial hash look-up = position holds a node',
@@ -89,8 +95,10 @@ PROPS = {
     'C11': {
         'families': [FOREST, FORESTEXH],
         'kinds': ['stumpupdate'],
-        'lean_modules': [],
-        'theorems': [],
+        'lean_modules': ['UtreexoVerif.Props.C11'],
+        'theorems': ['UtreexoVerif.Props.C11.' + t for t in ['stump_add_updateData', 'newAddSpec_mem_nodes', 'newAddSpec_added_leaf', 'posFacts']] +
+                    ['UtreexoVerif.Props.C01.stump_update_no_dels_refines', 'UtreexoVerif.Proofs.FinalPos.fpos_eq_liftFold'],
+        'unproved': ['NewDelPos/NewDelHash half of UpdateData (needs calculateHashes completeness)'],
         'rule': 'every Stump.Update replayed on the Lean model of stump.go (all UpdateData fields compared)',
         'trusted': COMMON_TRUST,
         'assumptions': [],
@@ -106,7 +114,7 @@ PROPS = {
     },
     'C06': {
         'families': [UNDO, FORESTEXH],
-        'kinds': ['roots', 'pos', 'hash', 'prove', 'count', 'cachedcount', 'modifyfail', 'undofail'],
+        'kinds': ['roots', 'pos', 'hash', 'prove', 'count', 'cachedcount', 'pdump', 'modifyfail', 'undofail'],
         'lean_modules': [],
         'theorems': [],
         'rule': 'undo to depth 1..history length and redo on another branch; after every undo roots, leaf count, position of every leaf ever added, every position read and proofs of live subsets compared with the specification forest at the earlier height',
